@@ -18,6 +18,7 @@ rows of those files, decide:
   directory listing before/after every model call (temporary files removed)
 """
 import itertools
+import math
 import os
 import shutil
 import tempfile
@@ -108,7 +109,7 @@ def generate(rng, tier, shard, nshards, mon):
     for ln in range(1, maxlen + 1):
         for seq in _growth_strings(ln, 3):
             if idx % nshards == shard:
-                yield _sys_cache_case([(l, "r") for l in seq], 1 + (idx // nshards) % 2)
+                yield _sys_cache_case([(l, "r") for l in seq], 1 + (idx // nshards) % 2, idx // (2 * nshards))
             idx += 1
     mon.exhaustive[f"cache-readonly-seqs-len{maxlen}-3lines"] = True
     maxlen4 = 7 if quick else 9
@@ -117,7 +118,7 @@ def generate(rng, tier, shard, nshards, mon):
             if max(seq) < 3:
                 continue
             if idx % nshards == shard:
-                yield _sys_cache_case([(l, "r") for l in seq], 1 + (idx // nshards) % 2)
+                yield _sys_cache_case([(l, "r") for l in seq], 1 + (idx // nshards) % 2, idx // (2 * nshards))
             idx += 1
     mon.exhaustive[f"cache-readonly-seqs-len{maxlen4}-4lines"] = True
     # (i-b) read/write sequences over 2 lines, cache
@@ -125,7 +126,7 @@ def generate(rng, tier, shard, nshards, mon):
     for ln in range(1, maxlen + 1):
         for seq in itertools.product([(0, "r"), (0, "w"), (1, "r"), (1, "w"), (0, "rw")], repeat=ln):
             if idx % nshards == shard:
-                yield _sys_cache_case(list(seq), 1 + (idx // nshards) % 2)
+                yield _sys_cache_case(list(seq), 1 + (idx // nshards) % 2, idx // (2 * nshards))
             idx += 1
     mon.exhaustive[f"cache-readwrite-seqs-len{maxlen}-2lines"] = True
     # (i-c) read / write / staging-write sequences over 2 lines x window splits, buffet
@@ -135,7 +136,7 @@ def generate(rng, tier, shard, nshards, mon):
         for seq in itertools.product(alpha, repeat=ln):
             for breaks in itertools.product([0, 1], repeat=ln - 1):
                 if idx % nshards == shard:
-                    yield _sys_buffet_case(list(seq), breaks, 1 + (idx // nshards) % 2)
+                    yield _sys_buffet_case(list(seq), breaks, 1 + (idx // nshards) % 2, idx // (2 * nshards))
                 idx += 1
     mon.exhaustive[f"buffet-seqs-len{maxlen}-2lines-all-window-splits"] = True
 
@@ -184,7 +185,7 @@ def _rows_from_symbols(seq, stamps, epl, shape, salt):
     return reads, writes
 
 
-def _sys_cache_case(seq, epl):
+def _sys_cache_case(seq, epl, capform=0):
     stamps = [(i,) for i in range(len(seq))]
     shape = 8 * epl
     reads, writes = _rows_from_symbols(seq, stamps, epl, shape, 0)
@@ -194,10 +195,10 @@ def _sys_cache_case(seq, epl):
             "bindings": [{"tensor": "A", "rank": "K", "type": "payload", "bits": 32, "n": 1,
                           "reads": reads if has_r else None, "writes": writes if has_w else None}],
             "line_sz": 32 * epl, "buffet": None,
-            "cache": {"caps": [0, 1, 2, 3, None]}, "perm": None, "rename": None}
+            "cache": {"caps": [0, 1, 2, 3, None]}, "perm": None, "rename": None, "capform": capform}
 
 
-def _sys_buffet_case(seq, breaks, epl):
+def _sys_buffet_case(seq, breaks, epl, capform=0):
     stamps, m, k = [], 0, 0
     for j in range(len(seq)):
         if j and breaks[j - 1]:
@@ -213,7 +214,7 @@ def _sys_buffet_case(seq, breaks, epl):
             "bindings": [{"tensor": "A", "rank": "K", "type": "payload", "bits": 32, "n": 2,
                           "reads": reads if has_r else None, "writes": writes if has_w else None}],
             "line_sz": 32 * epl, "buffet": {"evict": [["root"], ["M"]], "caps": [[0], [None], [1]][len(seq) % 3]},
-            "cache": None, "perm": None, "rename": None}
+            "cache": None, "perm": None, "rename": None, "capform": capform}
 
 
 # coordinate / position / stamp values deliberately straddle the 1-, 2- and 3-digit boundaries: the models
@@ -276,6 +277,43 @@ def _pick_line(rng, bits):
     return epl, bits * epl + pad
 
 
+def _gen_extras(rng, xorder, tensors, bindings, line_sz):
+    """Entries of the trace dictionary that no binding of the call names (the trace dictionary of a whole kernel
+    is handed to every buffer level, each level binds a few of its entries): the other type of a bound rank,
+    another rank of a bound tensor, a tensor that is not bound at all.  `xorder` is the loop order the unbound
+    traces are taken from (it may go deeper than any binding).  Adds the unbound tensor to `tensors`."""
+    bound = {(b["tensor"], b["rank"], b["type"]) for b in bindings}
+    cands = []
+    for t, d in tensors.items():
+        for r in d["ranks"]:
+            types = {k[2] for k in bound if k[:2] == (t, r)}
+            if not types:
+                cands.append((t, r, rng.choice(["payload", "coord", "elem"])))
+            elif "elem" not in types and len(types) < 2:
+                cands.append((t, r, "coord" if "payload" in types else "payload"))
+    xname = next(nm for nm in ["X", "Y", "W"] if nm not in tensors)
+    j = rng.randrange(len(xorder))
+    xranks = [r for r in xorder[:j] if rng.random() < 0.5] + [xorder[j]]
+    tensors[xname] = {"ranks": xranks, "shape": [rng.randint(2, 9) for _ in xranks[:-1]] + [rng.choice([3, 8, 17])]}
+    cands += [(xname, r, rng.choice(["payload", "coord", "elem"])) for r in xranks if rng.random() < 0.7 or r == xranks[-1]]
+    rng.shuffle(cands)
+    widths = [w for w in (8, 16, 32, 64) if w <= line_sz]
+    out = []
+    for t, r, ty in cands[:rng.choice([1, 1, 2, 3])]:
+        n = xorder.index(r) + 1
+        bits = rng.choice(widths)
+        epl = line_sz // bits
+        d = tensors[t]
+        shape = d["shape"][d["ranks"].index(r)]
+        reads, writes = _gen_binding_rows(rng, n, rng.randint(0, 10), epl, rng.randint(1, 3), shape,
+                                          rng.choice(["r", "r", "rw", "w"]), rng.randint(1, 3))
+        out.append({"tensor": t, "rank": r, "type": ty, "bits": bits, "n": n, "reads": reads, "writes": writes,
+                    "order": list(xorder[:n])})
+    if not any(x["tensor"] == xname for x in out):
+        del tensors[xname]
+    return out
+
+
 def _rand_single(rng):
     n = rng.randint(1, 3)
     order = RANKS[:n] if rng.random() < 0.7 else rng.sample(["I", "J", "K", "M", "N", "P", "Q"], n)
@@ -296,10 +334,15 @@ def _rand_single(rng):
     if rng.random() < 0.12:
         rename = {r.lower() + "0": r for r in tranks}
     caps = sorted(set([0, 1, 2, 3, 5] if rng.random() < 0.6 else rng.sample(range(0, 7), 3)))
+    tensors = {"A": {"ranks": tranks, "shape": tshape}}
+    bindings = [{"tensor": "A", "rank": order[-1], "type": _pick_type(rng), "bits": bits, "n": n,
+                 "reads": reads, "writes": writes}]
+    extras = []
+    if rng.random() < 0.4:
+        deeper = [rng.choice([r for r in ["I", "J", "K", "M", "N", "P", "Q"] if r not in order])] if n < 3 else []
+        extras = _gen_extras(rng, order + (deeper if rng.random() < 0.5 else []), tensors, bindings, line_sz)
     return {"kind": "model", "order": order,
-            "tensors": {"A": {"ranks": tranks, "shape": tshape}},
-            "bindings": [{"tensor": "A", "rank": order[-1], "type": _pick_type(rng), "bits": bits, "n": n,
-                          "reads": reads, "writes": writes}],
+            "tensors": tensors, "bindings": bindings, "extras": extras, "capform": rng.randrange(60),
             "line_sz": line_sz,
             "buffet": {"evict": [[e] for e in ["root"] + order[:-1]], "caps": [rng.choice([0, 1, 3]), None]},
             "cache": {"caps": caps + [None], "frac": rng.choice([0, 0, 1])},
@@ -360,7 +403,9 @@ def _rand_multi(rng):
     # itself unrelated to the loop order)
     listings = [list(p) for p in itertools.permutations(range(len(bindings)))]
     several_epl = len({line_sz // b["bits"] for b in bindings}) > 1
+    extras = _gen_extras(rng, RANKS, tensors, bindings, line_sz) if rng.random() < 0.4 else []
     return {"kind": "model", "order": order[:deepest + 1], "tensors": tensors, "bindings": bindings, "line_sz": line_sz,
+            "extras": extras, "capform": rng.randrange(60),
             "buffet": {"evict": evicts, "caps": [rng.choice([0, 2]), None]},
             "cache": {"caps": [0, 1, 2, 4, None]}, "listings": listings,
             "perm": rng.randrange(1 << 30) if several_epl and rng.random() < 0.3 else None, "rename": None}
@@ -414,7 +459,10 @@ def _rand_kernel(rng):
     widths = [bits] * 3 if rng.random() < 0.4 else [bits] + [rng.choice([8, 16, 32, 64]) for _ in range(2)]
     epl, line_sz = _pick_line(rng, max(widths))
     return {"kind": "kernel", "A": a, "B": b, "bits": bits, "widths": widths, "line_sz": line_sz,
-            "caps": [0, 1, 2, 3, 5, None], "relist": rng.randrange(1, 6)}
+            "caps": [0, 1, 2, 3, 5, None], "relist": rng.randrange(1, 6), "capform": rng.randrange(60),
+            # which of the model runs are handed the trace dictionary of the whole kernel instead of only the
+            # entries they bind
+            "whole_dict": [rng.random() < 0.3 for _ in range(6)]}
 
 
 # ------------------------------------------------------------------------------------------
@@ -580,7 +628,7 @@ def _spec_for(bindings, tensors, rename):
 def _build_formats(case):
     rename = case.get("rename")
     inv = {v: k for k, v in (rename or {}).items()}
-    specs = _spec_for(case["bindings"], case["tensors"], rename)
+    specs = _spec_for(case["bindings"] + list(case.get("extras") or []), case["tensors"], rename)
     formats = {}
     for t, d in case["tensors"].items():
         ids = [inv.get(r, r) for r in d["ranks"]]
@@ -621,7 +669,7 @@ def _prepare(case, tmp, files=None):
     rename = case.get("rename")
     inv = {v: k for k, v in (rename or {}).items()}
     formats = _build_formats(case)
-    ctx = {"formats": formats, "traces": {}, "owner": {}, "bind": [], "keep": set()}
+    ctx = {"formats": formats, "traces": {}, "owner": {}, "bind": [], "keep": set(), "xtraces": {}, "unbound": set()}
     for i, b in enumerate(case["bindings"]):
         orig_rank = inv.get(b["rank"], b["rank"])
         n = b["n"]
@@ -638,8 +686,69 @@ def _prepare(case, tmp, files=None):
             ctx["owner"][(b["tensor"], orig_rank, b["type"], acc_name)] = i
             ctx["keep"].add(os.path.basename(path))
         ctx["bind"].append({"tensor": b["tensor"], "rank": orig_rank, "type": b["type"]})
+    # entries of the trace dictionary that no binding names
+    bound_access = {(k[0], k[3]) for k in ctx["traces"]}
+    for i, x in enumerate(case.get("extras") or []):
+        orig_rank = inv.get(x["rank"], x["rank"])
+        for acc_name in ("read", "write"):
+            if x[acc_name + "s"] is None:
+                continue
+            if x.get("files"):
+                path = x["files"][acc_name]
+            else:
+                path = os.path.join(tmp, f"x{i}-{x['rank']}-{acc_name}.csv")
+                _write_trace(path, x["order"], x[acc_name + "s"])
+            ctx["xtraces"][(x["tensor"], orig_rank, x["type"], acc_name)] = path
+            if (x["tensor"], acc_name) not in bound_access:
+                ctx["unbound"].add((x["tensor"], acc_name))
     ctx["keep"] |= set(_listing(tmp))
     return ctx
+
+
+def _trace_dict(ctx, place, xfirst):
+    """The trace dictionary of one call: the bound entries in the order of the listing, the entries no binding
+    names before or after them."""
+    bound = sorted(ctx["traces"].items(), key=lambda kv: place[ctx["owner"][kv[0]]])
+    extra = list(ctx["xtraces"].items())
+    return dict(extra + bound if xfirst else bound + extra)
+
+
+def _settle_unbound(mon, which, got, ctx, tag):
+    """Entries of the result that belong to traces no binding names: nothing may be charged there (a zero entry
+    and no entry at all are both fine).  They are taken out before the oracles look at the bound ones."""
+    if not ctx["unbound"]:
+        return got
+    out = {t: dict(d) for t, d in got.items()}
+    for t, access in sorted(ctx["unbound"]):
+        v = out.get(t, {}).pop(access, 0)
+        mon.check(v == 0, f"{which}:traffic-charged-to-a-trace-no-binding-names{tag}",
+                  f"{which} charged {v} bits of {access} traffic to tensor {t}, none of whose {access} traces is bound")
+        if t in out and not out[t]:
+            del out[t]
+    return out
+
+
+UNBOUNDED_FORMS = ["int-enough", "float-inf", "int-huge", "math-inf", "float-enough"]
+
+
+def _capacity(mon, cap, line_sz, inf_bits, form, frac=False):
+    """-> (capacity value handed to the model, whole lines it holds - None when unbounded).
+    `cap` is a number of lines or None (unbounded); `form` picks how that quantity is written down: a finite one
+    as int or float bits, an unbounded one as float("inf") / math.inf / an int or float that has room for every
+    access of the run / an int beyond any machine word."""
+    if cap is None:
+        name = UNBOUNDED_FORMS[form % len(UNBOUNDED_FORMS)]
+        value = {"int-enough": inf_bits, "float-inf": float("inf"), "int-huge": 10 ** 30 + 7, "math-inf": math.inf,
+                 "float-enough": float(inf_bits)}[name]
+        mon.count("unbounded_as_float_inf" if name in ("float-inf", "math-inf") else "unbounded_as_finite_number")
+        if isinstance(value, float):
+            mon.count("float_capacity_calls")
+        return value, None
+    bits = cap * line_sz + (line_sz // 2 if frac else 0)         # a fraction of a line holds nothing
+    if form % 3 == 2:
+        mon.count("float_capacity_calls")
+        return float(bits), bits // line_sz
+    return bits, bits // line_sz
 
 
 def _binding_facts(case, evict=None):
@@ -738,6 +847,9 @@ def _run_model_case(case, mon, tmp, files=None, tagx=""):
     several_epl = len({f["epl"] for f in facts}) > 1
     if multi and several_epl:
         mon.count("mixed_width_cases")
+    capform = case.get("capform", 0)
+    if ctx["xtraces"]:
+        mon.count("cases_with_unbound_trace_entries")
 
     def loop_ranks():
         return dict(case["rename"]) if case.get("rename") else None
@@ -757,7 +869,7 @@ def _run_model_case(case, mon, tmp, files=None, tagx=""):
             return f"{which}:{kind}:{failure}{tag}{extra}"
 
         place = {i: k for k, i in enumerate(listing)}
-        traces = {k: v for k, v in sorted(ctx["traces"].items(), key=lambda kv: place[ctx["owner"][kv[0]]])}
+        traces = _trace_dict(ctx, place, (capform + lno) % 2)
         out_of_loop_order = any(order.index(case["bindings"][x]["rank"]) > order.index(case["bindings"][y]["rank"])
                                 for x, y in zip(listing, listing[1:]))
         if lno:
@@ -776,8 +888,8 @@ def _run_model_case(case, mon, tmp, files=None, tagx=""):
                     per.append(_buffet_model(f["acc"], end))
                 exp = _expected_dict(case, per, line_sz)
                 # buffet traffic does not depend on the capacity: later listings are run at one capacity
-                for cap in (case["buffet"]["caps"] if full else case["buffet"]["caps"][-1:]):
-                    cap_bits = inf_bits if cap is None else cap * line_sz
+                for cj, cap in enumerate(case["buffet"]["caps"] if full else case["buffet"]["caps"][-1:]):
+                    cap_bits, _ = _capacity(mon, cap, line_sz, inf_bits, capform + cj + lno)
                     ok, res = _call(mon, "buffetTraffic",
                                     lambda: Traffic.buffetTraffic(bindings, ctx["formats"], dict(traces), cap_bits,
                                                                   line_sz, loop_ranks=loop_ranks()), tmp, ctx["keep"])
@@ -785,14 +897,17 @@ def _run_model_case(case, mon, tmp, files=None, tagx=""):
                     mon.count("buffet_calls")
                     if multi:
                         mon.count("multi_binding_calls")
+                    if ctx["xtraces"]:
+                        mon.count("calls_with_unbound_trace_entries")
                     if not ok:
                         mon.violation(f"buffetTraffic:raised:{type(res).__name__}{ftag}{tag}",
-                                      f"buffetTraffic raised {type(res).__name__}: {res} (evict-on {evict}, capacity {cap}, "
-                                      f"bindings listed {listing})")
+                                      f"buffetTraffic raised {type(res).__name__}: {res} (evict-on {evict}, capacity "
+                                      f"{cap_bits!r} bits, bindings listed {listing})")
                         continue
                     got, overflows = res
+                    got = _settle_unbound(mon, "buffetTraffic", got, ctx, tag)
                     if full:
-                        results.append(("buffet", evict, cap, got))
+                        results.append(("buffet", evict, cap, cap_bits, got))
                         first_run[("buffet", tuple(evict), cap)] = got
                     _bounds(mon, "buffetTraffic", keyfn, case, facts, got, line_sz)
                     for t in sorted(set(exp) | set(got)):
@@ -801,11 +916,12 @@ def _run_model_case(case, mon, tmp, files=None, tagx=""):
                             kind = "fills" if access == "read" else "writebacks"
                             stg = ":staging" if (staging and access == "write") else ""
                             mon.check(g == x, keyfn("buffetTraffic", kind, "count", stg),
-                                      f"buffetTraffic evict-on {evict} capacity {cap}: tensor {t} {access} = {g} bits, the "
+                                      f"buffetTraffic evict-on {evict} capacity {cap_bits!r}: tensor {t} {access} = {g} bits, the "
                                       f"window rule gives {x} bits (line {line_sz} bits, bindings listed {listing})")
                     if cap is None:
                         mon.check(overflows == 0, f"buffetTraffic:overflow-at-unbounded-capacity{tag}",
-                                  f"buffetTraffic reported {overflows} overflows with room for every access")
+                                  f"buffetTraffic reported {overflows} overflows at capacity {cap_bits!r} bits, which has "
+                                  f"room for every access")
                     ref = first_run.get(("buffet", tuple(evict), cap))
                     if not full and ref is not None:
                         mon.count("listing_order_checked")
@@ -833,10 +949,10 @@ def _run_model_case(case, mon, tmp, files=None, tagx=""):
                 pick = sorted({lno % len(caps), (lno + 2) % len(caps)})
                 caps = [caps[j] for j in pick]
             for cap in caps:
-                cap_bits = inf_bits if cap is None else cap * line_sz
-                if cap is not None and case["cache"].get("frac"):
-                    cap_bits += line_sz // 2            # a fraction of a line holds nothing
-                cap_lines = cap_bits // line_sz
+                cap_bits, cap_lines = _capacity(mon, cap, line_sz, inf_bits, capform + case["cache"]["caps"].index(cap) + lno,
+                                                frac=case["cache"].get("frac"))
+                if cap_lines is None:
+                    cap_lines = inf_bits // line_sz         # room for every access of the run
                 ok, res = _call(mon, "cacheTraffic",
                                 lambda: Traffic.cacheTraffic(bindings, ctx["formats"], dict(traces), cap_bits,
                                                              line_sz, loop_ranks=loop_ranks()), tmp, ctx["keep"])
@@ -844,6 +960,8 @@ def _run_model_case(case, mon, tmp, files=None, tagx=""):
                 mon.count("cache_calls")
                 if multi:
                     mon.count("multi_binding_calls")
+                if ctx["xtraces"]:
+                    mon.count("calls_with_unbound_trace_entries")
                 if not ok:
                     # input class of the failing run (first that applies), so that one mechanism is one key
                     if foreign:
@@ -855,13 +973,14 @@ def _run_model_case(case, mon, tmp, files=None, tagx=""):
                     else:
                         cls = tag
                     mon.violation(f"cacheTraffic:raised:{type(res).__name__}{cls}",
-                                  f"cacheTraffic raised {type(res).__name__}: {res} (capacity {cap_lines} lines, "
-                                  f"bindings listed {listing})")
+                                  f"cacheTraffic raised {type(res).__name__}: {res} (capacity {cap_bits!r} bits = "
+                                  f"{cap_lines} lines, bindings listed {listing})")
                     prev = None
                     continue
                 got, overflows = res
+                got = _settle_unbound(mon, "cacheTraffic", got, ctx, tag)
                 if full:
-                    results.append(("cache", cap_lines if cap is not None else None, got))
+                    results.append(("cache", cap_lines if cap is not None else None, cap_bits, got))
                     first_run[("cache", cap)] = got
                 _bounds(mon, "cacheTraffic", keyfn, case, facts, got, line_sz)
                 if exact:
@@ -874,7 +993,7 @@ def _run_model_case(case, mon, tmp, files=None, tagx=""):
                             g, x = got.get(t, {}).get(access), exp.get(t, {}).get(access)
                             kind = "fills" if access == "read" else "writebacks"
                             mon.check(g == x, keyfn("cacheTraffic", kind, "differs-from-furthest-next-use"),
-                                      f"cacheTraffic capacity {cap_lines} lines: tensor {t} {access} = {g} bits, "
+                                      f"cacheTraffic capacity {cap_bits!r} bits = {cap_lines} lines: tensor {t} {access} = {g} bits, "
                                       f"furthest-next-use with bypass gives {x} bits (line {line_sz} bits, bindings "
                                       f"listed {listing})")
                 if read_only and not shift and len(seq) <= 12 and len({s[:2] for s in seq}) <= 5 and not same_rank:
@@ -882,18 +1001,19 @@ def _run_model_case(case, mon, tmp, files=None, tagx=""):
                     total = sum(d.get("read", 0) for d in got.values())
                     mon.count("optimum_checked")
                     mon.check(total == best * line_sz, f"cacheTraffic:fills:not-optimal{tag}",
-                              f"cacheTraffic capacity {cap_lines} lines charged {total} bits of fills; the optimum over all "
+                              f"cacheTraffic capacity {cap_bits!r} bits = {cap_lines} lines charged {total} bits of fills; the optimum over all "
                               f"replacement decisions is {best} fills x {line_sz} (bindings listed {listing})")
                 if cap is None:
                     mon.check(overflows == 0, f"cacheTraffic:overflow-at-unbounded-capacity{tag}",
-                              f"cacheTraffic reported {overflows} overflows with room for every line")
+                              f"cacheTraffic reported {overflows} overflows at capacity {cap_bits!r} bits, which has room "
+                              f"for every line")
                 if prev is not None and not staging and not shift and not foreign:
                     for t in got:
                         if "read" in got[t] and "read" in prev[1].get(t, {}):
                             mon.check(got[t]["read"] <= prev[1][t]["read"], f"cacheTraffic:fills:increase-with-capacity{tag}",
                                       f"cacheTraffic: tensor {t} fills rose from {prev[1][t]['read']} to {got[t]['read']} bits "
-                                      f"when capacity grew from {prev[0]} to {cap_lines} lines")
-                prev = (cap_lines, got)
+                                      f"when capacity grew from {prev[0]} to {cap_lines} lines ({prev[2]!r} to {cap_bits!r} bits)")
+                prev = (cap_lines, got, cap_bits)
                 # bindings on different loop ranks are processed in an order the listing has no say in
                 ref = first_run.get(("cache", cap))
                 if not full and ref is not None and not same_rank:
@@ -926,13 +1046,14 @@ def _run_model_case(case, mon, tmp, files=None, tagx=""):
         sub = tempfile.mkdtemp(prefix="c17p-", dir=TMPROOT)
         try:
             ctx2 = _prepare(moved, sub)
+            ident = {i: i for i in range(len(moved["bindings"]))}
             k = 0
             for r in results:
                 if r[0] == "buffet":
                     bindings = [dict(b, **{"evict-on": e}) for b, e in zip(ctx2["bind"], r[1])]
-                    cap_bits = inf_bits if r[2] is None else r[2] * line_sz
+                    cap_bits = r[3]
                     ok, res = _call(mon, "buffetTraffic",
-                                    lambda: Traffic.buffetTraffic(bindings, ctx2["formats"], dict(ctx2["traces"]),
+                                    lambda: Traffic.buffetTraffic(bindings, ctx2["formats"], _trace_dict(ctx2, ident, k % 2),
                                                                   cap_bits, line_sz, loop_ranks=loop_ranks()),
                                     sub, ctx2["keep"])
                 else:
@@ -940,10 +1061,10 @@ def _run_model_case(case, mon, tmp, files=None, tagx=""):
                         k += 1
                         continue
                     k += 1
-                    cap_bits = inf_bits if r[1] is None else r[1] * line_sz
+                    cap_bits = r[2]
                     ok, res = _call(mon, "cacheTraffic",
                                     lambda: Traffic.cacheTraffic([dict(b) for b in ctx2["bind"]], ctx2["formats"],
-                                                                 dict(ctx2["traces"]), cap_bits, line_sz,
+                                                                 _trace_dict(ctx2, ident, k % 2), cap_bits, line_sz,
                                                                  loop_ranks=loop_ranks()), sub, ctx2["keep"])
                 mon.count("model_calls")
                 mon.count("lineperm_checked")
@@ -952,8 +1073,9 @@ def _run_model_case(case, mon, tmp, files=None, tagx=""):
                     mon.violation(f"{which}:raised:{type(res).__name__}{tag}", f"{which} raised {res!r} after positions "
                                   "were moved inside their lines")
                     continue
-                mon.check(res[0] == r[-1], f"{which}:depends-on-position-inside-line{tag}",
-                          f"{which} ({r[1:-1]}): traffic {r[-1]} became {res[0]} after moving positions inside their lines")
+                moved_got = _settle_unbound(mon, which, res[0], ctx2, tag)
+                mon.check(moved_got == r[-1], f"{which}:depends-on-position-inside-line{tag}",
+                          f"{which} ({r[1:-1]}): traffic {r[-1]} became {moved_got} after moving positions inside their lines")
         finally:
             shutil.rmtree(sub, ignore_errors=True)
 
@@ -1120,9 +1242,30 @@ def _run_kernel(case, mon, tmp):
                  "writes": parsed[wr][2] if wr else None},
                 {"read": parsed[rd][0] if rd else None, "write": parsed[wr][0] if wr else None})
 
+    # the trace dictionary of the whole kernel: what every tensor's every rank is read / written through
+    whole = {("A", "M", "payload"): (("M", "populate_1"), None), ("A", "K", "coord"): (("K", "intersect_0"), None),
+             ("A", "K", "payload"): (("K", "intersect_0"), None), ("B", "K", "payload"): (("K", "intersect_1"), None),
+             ("B", "N", "payload"): (("N", "populate_1"), None), ("Z", "N", "coord"): (("N", "populate_read_0"), None),
+             ("Z", "N", "payload"): (("N", "populate_read_0"), ("N", "populate_write_0"))}
+    runs = [0]
+
     def model(bind_files, buffet_evicts, tagx=""):
         bs = [dict(bf[0], bits=widths[i]) for i, bf in enumerate(bind_files)]
         used = {b["tensor"] for b in bs}
+        extras = []
+        flags = case.get("whole_dict") or []
+        if flags and flags[runs[0] % len(flags)]:
+            # this run is handed the whole dictionary although it binds only some of its entries
+            named = {(b["tensor"], b["rank"], b["type"]) for b in bs}
+            for (t, rk, ty), (rd, wr) in whole.items():
+                rd, wr = (rd if rd in parsed else None), (wr if wr in parsed else None)
+                if (t, rk, ty) in named or (rd is None and wr is None):
+                    continue
+                extras.append({"tensor": t, "rank": rk, "type": ty, "bits": bits, "n": order.index(rk) + 1,
+                               "reads": parsed[rd][2] if rd else None, "writes": parsed[wr][2] if wr else None,
+                               "files": {"read": parsed[rd][0] if rd else None, "write": parsed[wr][0] if wr else None}})
+                used.add(t)
+        runs[0] += 1
         listings = [list(range(len(bs)))]
         if len(bs) > 1 and case.get("relist"):
             # one more order of listing the same bindings
@@ -1131,7 +1274,7 @@ def _run_kernel(case, mon, tmp):
         sub = {"kind": "model", "order": order[:max(b["n"] for b in bs)],
                "tensors": {t: d for t, d in tensors.items() if t in used}, "bindings": bs, "line_sz": line_sz,
                "buffet": {"evict": buffet_evicts, "caps": [1, None]}, "cache": {"caps": caps}, "perm": None,
-               "rename": None, "listings": listings}
+               "rename": None, "listings": listings, "extras": extras, "capform": case.get("capform", 0) + runs[0]}
         _run_model_case(sub, mon, tmp, files=[bf[1] for bf in bind_files], tagx=tagx)
 
     # Z's leaf payloads: reads + writes with insertion shifts and staging positions
